@@ -62,7 +62,7 @@ var properties = map[string]*propDef{
 		NotDecided:  "microseconds-per-quarter arithmetic and denominator encoding (gomidi); UTF-8 byte identity through yaml.v3.",
 	},
 	"C08": {
-		Rules:       []string{"NOTE", "PLAYLOOP", "PENDING", "SELECT", "OPMAP", "TRACKCOUNT", "TAB-DYNAMICS", "REJECT", "WIRE"},
+		Rules:       []string{"NOTE", "PLAYLOOP", "PENDING", "SELECT", "OPMAP", "TRACKCOUNT", "TAB-DYNAMICS", "REJECT", "WIRE", "IOLAYER"},
 		Technique:   techPath + ": on/off pairing, Close post-domination, meta ops only via MetaTrack",
 		Explanation: "crd's side of the SMF contract: every track is closed exactly once, after the last instance, and nothing is written after it; every note-on has a note-off of the same key and channel in the same call; tempo / time / key signature ops are created only through addMeta, MetaTrack maps to track 0 only, fixed ops never reach track 0 when N >= 2; N tracks are built and all are serialised with Add's error propagated; velocities <= 127.",
 		NotDecided:  "header bytes, chunk lengths, variable-length quantities and data-byte masking: gomidi, trusted.",
@@ -74,7 +74,7 @@ var properties = map[string]*propDef{
 		NotDecided:  "absence of implicit run-time panics in general (index, nil, division); `promptly` as a quantitative statement; the behaviour of cobra / yaml.v3 on malformed flags or YAML.",
 	},
 	"C10": {
-		Rules:       []string{"SCHEMA", "CODEC", "TAB-NOTATION", "TAB-REGEX", "TAB-DYNAMICS", "TAB-DEGREE", "BASE10", "VALIDATE", "WIRE"},
+		Rules:       []string{"SCHEMA", "CODEC", "TAB-NOTATION", "TAB-REGEX", "TAB-DYNAMICS", "TAB-DEGREE", "BASE10", "VALIDATE", "NARROW", "WIRE"},
 		Technique:   "YAML schema comparison of producer and consumer types, Marshal/Unmarshal pairing, printer/parser table agreement",
 		Explanation: "what `text conv` and `write conv` hand to the YAML encoder has the key tree and scalar types `write` decodes (yaml.v3 silently ignores unknown keys, which is how this breaks); every scalar reachable from input.Instance has both directions, the decoders read the scalar text with the parser and the encoders print with String; printers and parsers share their tables (inverse maps built from the forward maps, notation marks longest-first, regex classes = printer alphabets, `/` separator numerator first, bare number = denominator 1, minor mark from capture 3); numerals are base 10.",
 		NotDecided:  "Parse(String(v)) == v for all values (a bijection over a value space); YAML quoting of arbitrary text (yaml.v3).",
@@ -86,7 +86,7 @@ var properties = map[string]*propDef{
 		NotDecided:  "byte identity of two runs' output (a relation over pairs of inputs); white space inside `{...}` (the lexer keeps inner spaces of metadata by design).",
 	},
 	"C12": {
-		Rules:       []string{"MAPORDER", "CONC", "NONDET", "IOLAYER", "DEBUGOUT"},
+		Rules:       []string{"MAPORDER", "CONC", "NONDET", "IOLAYER", "DEBUGOUT", "TAB-DEGREE"},
 		Technique:   "interprocedural order-taint analysis from map ranges to data sinks over go/ssa, plus inventories of goroutines, nondeterminism sources and I/O sites",
 		Explanation: "for the enumerated sources of nondeterminism none reaches a data sink: map-iteration order (ranges over maps, maps.Keys/Values/All, functions summarised as returning map-ordered data) is tracked through values, stores, closures and range-over-func bodies to yaml.Marshal, writes and MIDI writer calls, with sorts and set construction as sanitisers and early exits justified by table invariants; the single goroutine is a single-producer FIFO closed on every path; no clock/random/environment/pid source and no %p; stdin/stdout/files only through the helpers, both input branches feed one callback, every data command writes through getOutput. Given the trusted base this is close to the whole property: a Go program without those sources is a function of its input.",
 		NotDecided:  "sources outside the list (unsafe, cgo, finalisers - none present); the operating system.",
@@ -132,15 +132,33 @@ var wireScope = map[string][]string{
 	"C07": {"astconv.Meta", "astconv.ASTConverter.Convert|meta", "midix.NewTrackOp", "cmd.newWriteCmdArgsFromInputInstances", "cmd.writeCmdArgs.writeToPlay", "cmd.getScale"},
 	"C08": {"midix."},
 	"C09": {"astconv.MetaInstanceModifierImpl.", "note.NewDegree", "note.ParseDegree", "chord.Map."},
-	"C10": {"note.ParseDegree", "note.NewDegree", "cmd.newWriteCmdArgsFromInputInstances", "astconv.ASTConverter.Convert", "astconv.ValuesConverterImpl.", "astconv.MetaConverterImpl."},
-	"C11": {"astconv.SyllableChordConverter.newScaleNote", "astconv.DegreeChordConverter.", "astconv.SyllableChordConverter.Convert", "astconv.ValuesConverterImpl.", "cmd.infoCmdChordDescribe.RunE"},
+	"C10": {"cmd.writeCmdConv.RunE", "note.ParseDegree", "note.NewDegree", "cmd.newWriteCmdArgsFromInputInstances", "astconv.ASTConverter.Convert", "astconv.ValuesConverterImpl.", "astconv.MetaConverterImpl."},
+	"C11": {"input/ast.NewToken", "astconv.SyllableChordConverter.newScaleNote", "astconv.DegreeChordConverter.", "astconv.SyllableChordConverter.Convert", "astconv.ValuesConverterImpl.", "cmd.infoCmdChordDescribe.RunE"},
 	"C13": {"op.Scale.", "op.ScaleNote.Semitone", "op.Key.Semitone", "desc.Key.Describe", "cmd.getScale", "cmd.infoKeyCmdDescribe"},
 	"C15": {"note.ParseDegree", "note.NewDegree", "note.Note.Semitone", "chord.Attribute.Semitone", "desc.Attribute.Describe", "cmd.infoCmdAttrDescribe", "cmd.getRootNote", "chord.Map.GetAttribute", "chord.GenerateAttributes"},
 	"C16": {"chord.", "desc.Chord.Describe", "desc.Attribute.Describe", "cmd.infoCmdChordDescribe", "cmd.newChordMap"},
 	"C17": {"desc.Key.Describe", "op.DiatonicChorderImpl.", "cmd.infoKeyCmdDescribe", "op.Scale.", "op.ScaleNote.Semitone", "cmd.getScale", "chord.Map."},
 }
 
+// otherScope: scopes of other shared rules, property -> rule -> construct-key patterns (prefix, or *substring).
+var otherScope = map[string]map[string][]string{
+	// a log line or any other print on stdout lands in front of the MIDI bytes when the file goes to stdout
+	"C08": {"IOLAYER": {"*|os.Stdout", "*|fmt.Print", "*|cobra.Out"}},
+	// the search over the interval table ranges over a map: it is deterministic only while exactly one row qualifies
+	"C12": {"TAB-DEGREE": {"note.Degree.simpleSemitone|adjust", "note.Degree|adjust"}},
+}
+
 func init() {
+	for p, m := range otherScope {
+		if pd := properties[p]; pd != nil {
+			if pd.Scope == nil {
+				pd.Scope = map[string][]string{}
+			}
+			for r, pats := range m {
+				pd.Scope[r] = pats
+			}
+		}
+	}
 	for p, pfx := range wireScope {
 		if pd := properties[p]; pd != nil {
 			if pd.Scope == nil {
@@ -158,7 +176,7 @@ func (pd *propDef) inScope(rule, key string) bool {
 		return true
 	}
 	for _, p := range pfx {
-		if strings.HasPrefix(key, p) {
+		if strings.HasPrefix(key, p) || (strings.HasPrefix(p, "*") && strings.Contains(key, p[1:])) {
 			return true
 		}
 	}
